@@ -15,7 +15,7 @@ import traceback
 from sa.model import AnalysisError, Program, Report
 
 VERIF = os.path.dirname(os.path.dirname(os.path.abspath(__file__)))
-EVIDENCE_DIR = os.path.join(VERIF, "evidence")
+EVIDENCE_DIR = os.environ.get("SA_EVIDENCE_DIR") or os.path.join(VERIF, "evidence")
 KNOWN_FILE = os.path.join(VERIF, "known_findings.json")
 
 TRUSTED_BASE = [
